@@ -145,13 +145,14 @@ func atoi(v url.Values, k string, def int) int {
 func init() {
 	gx.RegisterRig("route", func(v url.Values) (*gx.Scenario, error) {
 		pt, lead, keys, nm := v.Get("pt"), atoi(v, "lead", 0), v.Get("keys"), atoi(v, "nm", 3)
-		return &gx.Scenario{Run: func(c *gx.Ctl) *gx.Outcome { return run(c, pt, lead, keys, nm) }}, nil
+		mdesc := atoi(v, "mdesc", 0) == 1
+		return &gx.Scenario{Run: func(c *gx.Ctl) *gx.Outcome { return run(c, pt, lead, keys, nm, mdesc) }}, nil
 	})
 }
 
 const nparts = 3
 
-func run(c *gx.Ctl, pt string, leaderless int, keys string, nm int) *gx.Outcome {
+func run(c *gx.Ctl, pt string, leaderless int, keys string, nm int, mdesc bool) *gx.Outcome {
 	r := &rig{c: c, submitCh: make(chan *sarama.ProducerMessage, 16)}
 	cl := simkafka.New(c)
 	r.cl = cl
@@ -166,6 +167,7 @@ func run(c *gx.Ctl, pt string, leaderless int, keys string, nm int) *gx.Outcome 
 		}
 	}
 	cl.UrgentMetadata = true
+	cl.MetaDescending = mdesc
 	c.AutoRelease = func(site string) bool { return !(pt == "chash2" && site == "hash.mid") } // schedules are not the subject here, except for the gated custom hash
 
 	conf := sarama.NewConfig()
@@ -435,6 +437,11 @@ func Family() []string {
 			}
 			for lead := 0; lead < 1<<nparts; lead++ {
 				out = append(out, fmt.Sprintf("route?pt=%s&keys=%s&lead=%d&nm=4", pt, keys, lead))
+				if keys == "all" && (pt == "hash" || pt == "ref" || pt == "manual" || pt == "cdyn" || pt == "roundrobin") {
+					// the same with metadata that lists the partitions in descending order: index i of the offered list must
+					// still be the i-th smallest partition id
+					out = append(out, fmt.Sprintf("route?pt=%s&keys=%s&lead=%d&nm=4&mdesc=1", pt, keys, lead))
+				}
 			}
 		}
 	}
